@@ -57,6 +57,15 @@ CHECKS['C05'] = dict(
     design='4 (C05)',
     technique='Coq proofs by induction on fuel with prefix-shift lemmas for filter_nodes / nodes_with_paths; sampled vm_compute correspondence; wrap / sibling / frame oracles for replays')
 
+CHECKS['C15'] = dict(
+    text='Machine-checked for tag-free histories: C15_idempotent_last_plain (repeating a well-formed last document gives a tree of equal content, or both builds fail), '
+         'C15_empty_neutral_plain (an empty mapping document anywhere after the first is neutral), C15_update_idempotent (the reference update is idempotent; proof by fixpoint lemmas '
+         'over key-unique mappings and index-addressed lists), all lifted to the model of Builder.flatten through the C02 refinement. Partial: for tagged histories (priorities, !del, !merge) '
+         'and for the key-order and !unsafe/!new neutrality clauses the verdict comes from the correspondence (incl. exhaustive T2 sweeps of _get_child_kwargs and _propagate_implicit_values, '
+         'the two procedures whose disagreement was defect D16) and five metamorphic oracles; determinism of the functional model is trivial and is checked on the implementation by building twice.',
+    design='4 (C15), 6 (D16, D18)',
+    technique='Coq proofs of idempotence / neutrality of the update fold lifted by refinement; exhaustive + sampled vm_compute correspondence; metamorphic oracles (twice, repeat-last, empty, permute, mark) for replays')
+
 NOT_APPLICABLE = {}
 
 
